@@ -230,3 +230,100 @@ Theorem C16_stake_delegation_balance_rounded_refuted :
     (exists sht, shares_from_tokens_trunc v (delegation_balance_rounded v sh) = Some sht /\ sh < sht).
 Proof. exact delegation_balance_rounded_refuted. Qed.
 Print Assumptions C16_stake_delegation_balance_rounded_refuted.
+
+(** ---------------------------------------------------------------------------------------------
+    createValidator (Staking/CreateValModel.v): argument conversion and validation.  The ABI hands
+    the precompile five uint256 numbers (three commission rates with 18 decimals, the minimum
+    self-delegation, the value); a native MsgCreateValidator carries the same integers (a LegacyDec
+    is its integer).  The code's conversion is the identity on the naturals below 2^256, followed
+    by the native ValidateBasic and the native message server. *)
+From HV Require Import Staking.CreateValModel Staking.CreateValProofs.
+
+(** For every state, every description / address / consensus-key shape and ALL uint256 numbers: the
+    signer's own call (caller = origin = delegator) does exactly what the native message with the same
+    values does: same success, same validator record (commission rates, minimum self-delegation,
+    tokens, shares), same self-delegation, same balance. *)
+Theorem C16_create_owner_eq_native :
+  forall st a g, a <> 0 -> args_u256 g ->
+    precompile_create conv_id st a a a g = native_create st g.
+Proof. exact create_owner_eq_native. Qed.
+Print Assumptions C16_create_owner_eq_native.
+
+(** ... in particular the precompile accepts exactly what the native message accepts *)
+Theorem C16_create_owner_accepts_iff_native_accepts :
+  forall st a g, a <> 0 -> args_u256 g ->
+    (c_ok (precompile_create conv_id st a a a g) = true <-> c_ok (native_create st g) = true).
+Proof. exact create_owner_accepts_iff. Qed.
+Print Assumptions C16_create_owner_accepts_iff_native_accepts.
+
+(** what an accepted creation satisfies and does (both routes, by the first theorem): the rates are
+    ordered and at most 100 %, the minimum commission holds, the value covers the minimum
+    self-delegation and is covered by the balance; the record holds the numbers of the message, the
+    first delegation is issued at rate one, the balance falls by the value *)
+Theorem C16_create_effect :
+  forall st g, c_ok (native_create st g) = true ->
+  s_mincomm st <= m_rate g /\ 0 <= m_rate g <= m_max g /\ m_max g <= one_dec /\
+  0 <= m_change g <= m_max g /\ 0 < m_minself g <= m_value g /\ m_value g <= s_bal st /\
+  s_owner st = false /\ m_pk g = 0%N /\ m_valaddr_ok g = true /\ desc_empty g = false /\ desc_len_ok g = true /\
+  native_create st g =
+    mk_cout true
+      (Some (mk_cnew (m_rate g) (m_max g) (m_change g) (m_minself g) (m_value g)
+                     (m_value g * one_dec) (m_value g * one_dec)))
+      (s_bal st - m_value g).
+Proof. exact native_create_effect. Qed.
+Print Assumptions C16_create_effect.
+
+(** a caller other than the signer is refused whatever the arguments (F10): only the direct call applies *)
+Theorem C16_create_by_another_caller_refused :
+  forall conv st caller a g, caller <> a -> precompile_create conv st caller a a g = cfail st.
+Proof. exact create_by_another_caller_refused. Qed.
+Print Assumptions C16_create_by_another_caller_refused.
+
+(** non-vacuity: an ordinary creation (5 % / 20 % / 5 %, value 10^18 of a balance of 50 * 10^18) *)
+Theorem C16_create_example :
+  args_u256 w_cv_plain /\
+  native_create w_cv_state w_cv_plain =
+    mk_cout true
+      (Some (mk_cnew 50000000000000000 200000000000000000 50000000000000000 1 1000000000000000000
+                     1000000000000000000000000000000000000 1000000000000000000000000000000000000))
+      49000000000000000000 /\
+  precompile_create conv_id w_cv_state 1 1 1 w_cv_plain = native_create w_cv_state w_cv_plain /\
+  precompile_create conv_low64 w_cv_state 1 1 1 w_cv_plain = native_create w_cv_state w_cv_plain /\
+  c_ok (precompile_create conv_id w_cv_state 2 1 1 w_cv_plain) = false.
+Proof. exact create_example. Qed.
+Print Assumptions C16_create_example.
+
+(** The seeded variant: the rates converted through big.Int.Int64 (the low 64 bits).  It is the code on
+    everything below 2^63, hence on every rate set a native message is accepted with ... *)
+Theorem C16_create_low64_id_below_2_63 :
+  forall x, 0 <= x < 2 ^ 63 -> conv_low64 x = x.
+Proof. exact low64_id_below_2_63. Qed.
+Print Assumptions C16_create_low64_id_below_2_63.
+
+Theorem C16_create_low64_agrees_where_native_accepts :
+  forall st a g, a <> 0 -> args_u256 g -> c_ok (native_create st g) = true ->
+    precompile_create conv_low64 st a a a g = native_create st g.
+Proof. exact low64_agrees_where_native_accepts. Qed.
+Print Assumptions C16_create_low64_agrees_where_native_accepts.
+
+(** ... and it is refuted where the native message refuses: rates 2^64 + 5 % / 2^64 + 20 % / 2^64 + 5 %
+    (about 1849 %) are refused by the native message and by the code, the variant creates a validator
+    with a commission of 5 % and locks the self-delegation; one rate above 2^64 is enough *)
+Theorem C16_create_low64_refuted :
+  args_u256 w_cv_huge /\
+  native_create w_cv_state w_cv_huge = cfail w_cv_state /\
+  precompile_create conv_id w_cv_state 1 1 1 w_cv_huge = cfail w_cv_state /\
+  precompile_create conv_low64 w_cv_state 1 1 1 w_cv_huge =
+    mk_cout true
+      (Some (mk_cnew 50000000000000000 200000000000000000 50000000000000000 1 1000000000000000000
+                     1000000000000000000000000000000000000 1000000000000000000000000000000000000))
+      49000000000000000000.
+Proof. exact low64_refuted. Qed.
+Print Assumptions C16_create_low64_refuted.
+
+Theorem C16_create_low64_refuted_one_rate :
+  args_u256 w_cv_rate_only /\
+  c_ok (native_create w_cv_state w_cv_rate_only) = false /\
+  c_ok (precompile_create conv_low64 w_cv_state 1 1 1 w_cv_rate_only) = true.
+Proof. exact low64_refuted_one_rate. Qed.
+Print Assumptions C16_create_low64_refuted_one_rate.
